@@ -106,6 +106,24 @@ func NewStore() *Store {
 
 func (s *Store) NumTerms() int { return int(s.next) }
 
+// HasFloat reports whether t contains a floating-point operation; memo is the caller's cache.
+func HasFloat(t *Term, memo map[*Term]bool) bool {
+	if v, ok := memo[t]; ok {
+		return v
+	}
+	r := t.Op >= OpFAdd && t.Op <= OpFAbs
+	if !r {
+		for _, a := range t.A {
+			if HasFloat(a, memo) {
+				r = true
+				break
+			}
+		}
+	}
+	memo[t] = r
+	return r
+}
+
 func (s *Store) mk(op Op, w uint8, c uint64, name string, args ...*Term) *Term {
 	if len(args) > 3 {
 		var sb strings.Builder
